@@ -105,7 +105,7 @@ Discard(since, n) ==
   /\ open /\ since > committed /\ since <= InmemPre     \* committed txs are never discarded
   /\ n = InmemPre + 1 - since
   /\ log' = SubSeq(log, 1, since - 1)
-  /\ allowed' = allowed                     \* (the code keeps the allowance; it is clamped when used)
+  /\ allowed' = Min(allowed, since - 1)     \* an allowance granted for the discarded transactions is withdrawn (5dff58a; before, the code kept it)
   /\ cflushed' = Min(cflushed, committed) /\ cdurable' = Min(cdurable, committed)
   /\ UNCHANGED <<synced, extAllow, committed, hist, acked, cont, seen, everPre, cut, open>>
 
